@@ -535,7 +535,7 @@ fn scenario_memtable_churn(out: &mut CaseOut, rng: &mut Rng, tier: &str) {
     }
     let n_writers = rng.range(1, 3) as u32;
     let n_readers = rng.range(2, 5) as u32;
-    let inserts: u64 = if tier == "quick" { 4000 } else { 12000 };
+    let inserts: u64 = if tier == "quick" { 1200 } else { 6000 };
     let stop = Arc::new(std::sync::atomic::AtomicBool::new(false));
     let mut writers = vec![];
     for w in 1..=n_writers {
